@@ -224,3 +224,21 @@ Proof.
   destruct (done_upto_all i t k Hk) as [A B]. rewrite <- SH in A, B.
   apply proj_in in A, B. tauto.
 Qed.
+
+(* with a source that says None only when it is exhausted, returning without stop means all n
+   items went through all tasks *)
+Theorem returns_when_exhausted t n c ls s :
+  run t (init n c) ls = Some s -> ~ In E_stop ls -> honest t (init n c) ls = true -> mainpc s = M_returned ->
+  src_left s = 0 /\ next_item s = S n /\
+  forall i k, 1 <= i <= n -> k < t -> In (Start i k) (log s) /\ In (End_ i k) (log s).
+Proof.
+  intros Hr NS Ho MR.
+  assert (RN : reachable_ns true t n c s) by (eapply run_reachable_ns; eauto; constructor).
+  pose proof (reachable_ns_reachable _ _ _ _ _ RN) as R.
+  pose proof (ns_reachable _ _ _ _ _ RN) as N.
+  pose proof (ns_c _ _ _ N MR) as P2.
+  assert (SL : src_left s = 0) by (apply (ns_h _ _ _ N eq_refl); now left).
+  pose proof (src_count_reachable _ _ _ _ R) as SC.
+  destruct (exactly_once t n c ls s Hr NS MR) as [_ [_ EO]].
+  split; [exact SL|]. split; [lia|]. intros i k Hi Hk. apply EO; lia.
+Qed.
